@@ -4,19 +4,164 @@ Shared by C03 / C04 / C06: random editing histories over the public structural A
 python-odml, executed on the real library and on the Lean heap model
 (lean/OdmlModel/Model/Heap.lean), snapshots compared after every operation, plus the
 implementation-level oracles (well-formed tree, unique non-empty names, refused = unchanged).
+
+Two kinds of histories:
+ * modelled: names and ids are texts (any text: the model compares names as strings and reads ids
+   with its model of uuid.UUID), handles are symbolic and may be relational ("a child of the
+   original of the last mirror", "the parent of X", "a sibling of X"), macro operations ("mirror":
+   a deep-equal copy of a subtree built elsewhere, "twin": an object with the name and id of an
+   existing one) are expanded into primitive constructor calls at execution time;
+ * odd (oracle only, no model requests): names and ids that are not texts (int, bool, float, NaN,
+   bytes, tuple - what `name: 7` in a YAML / JSON source produces; the library stores them unchanged),
+   and documents loaded from YAML / JSON / XML text instead of being constructed.
 """
+import json
+import unicodedata
 import uuid
 
 import framework as fw
 
 NAMES = ["a", "b", "c", "ab", ""]
 
+# texts beyond the small alphabet; the model follows all of them (string equality)
+WIDE_NAMES = ["a/b", "/", "a b", " a", "a ", " ", "A", "7", "0", "1.0", "True", "None", u"\xe9",
+              u"\u540d\u524d", "a\nb", "a\n", "\n", "\t", "x" * 300, "a" * 64 + "b", ".", "..", "a#b",
+              "urn:uuid:a", "[a]", "a,b", "'a'", "<a>", "&amp;"]
+
+# names that are not texts: {"py": type, "v": text}; only in the oracle-only stream
+ODD_NAMES = [("int", "7"), ("int", "7"), ("int", "1"), ("bool", "True"), ("float", "1.0"), ("float", "1.5"),
+             ("int", "0"), ("bool", "False"), ("float", "0.0"), ("float", "-0.0"), ("int", "-1"),
+             ("int", str(10 ** 30)), ("float", "1e30"), ("float", "inf"), ("none", ""), ("bytes", "a"),
+             ("tuple", "1,2"), ("int", "3"), ("float", "3.0")]
+
+EXTREME_POS = [2 ** 31, -2 ** 31, 2 ** 31 - 1, 2 ** 62, -2 ** 62, 2 ** 32 + 1, -(2 ** 32) - 1, 1000, -1000]
+
 
 def uid(n):
     return str(uuid.UUID(int=(n * 2654435761) % (1 << 128) + (1 << 100)))
 
 
+# ----------------------------------------------------------------------------- odd values
+def spec(py, v):
+    return {"py": py, "v": v}
+
+
+def decode(val):
+    """A case value -> the Python object handed to the library."""
+    if not isinstance(val, dict):
+        return val
+    py, v = val["py"], val["v"]
+    if py == "int":
+        return int(v)
+    if py == "bool":
+        return v == "True"
+    if py == "float":
+        return float(v)
+    if py == "none":
+        return None
+    if py == "bytes":
+        return v.encode("ascii")
+    if py == "tuple":
+        return tuple(int(x) for x in v.split(","))
+    raise ValueError(py)
+
+
+def spec_of(value):
+    """Inverse of decode (texts stay texts)."""
+    if isinstance(value, str):
+        return value
+    if value is None:
+        return spec("none", "")
+    if isinstance(value, bool):
+        return spec("bool", repr(value))
+    if isinstance(value, int):
+        return spec("int", str(value))
+    if isinstance(value, float):
+        return spec("float", repr(value))
+    if isinstance(value, bytes):
+        return spec("bytes", value.decode("ascii", "replace"))
+    if isinstance(value, tuple):
+        return spec("tuple", ",".join(str(x) for x in value))
+    return repr(value)
+
+
+# positions / keys that are not plain machine-size ints; only in the oracle-only stream
+ODD_POS = [spec("float", "2.5"), spec("float", "1.0"), spec("float", "0.0"), spec("float", "-1.0"),
+           spec("int", str(2 ** 63)), spec("int", str(-2 ** 63 - 1)), spec("int", str(10 ** 30)),
+           spec("int", str(2 ** 63 - 1)), spec("none", ""), spec("bool", "True"), spec("bool", "False"),
+           spec("float", "nan"), spec("float", "inf"), spec("bytes", "1"), spec("tuple", "0"), "1", "a"]
+
+
+def enc_name(value, handle):
+    """A name as a text for the snapshot: texts unchanged; other values so that two encodings are
+    equal exactly when Python's == holds between the values (1 == 1.0 == True; NaN equals nothing,
+    not even itself, so it is tagged with the handle of its object)."""
+    if isinstance(value, str):
+        return value
+    if value is None:
+        return ""
+    if isinstance(value, (bool, int, float)):
+        if value != value:
+            return u"\x01nan:%s" % handle
+        if isinstance(value, float) and value in (float("inf"), float("-inf")):
+            return u"\x01num:%r" % value
+        if value == int(value):
+            return u"\x01num:%d" % int(value)
+        return u"\x01num:%r" % float(value)
+    if isinstance(value, bytes):
+        return u"\x01bytes:" + value.decode("latin-1")
+    return u"\x01obj:%r" % (value,)
+
+
+def model_text(s):
+    """uuid.UUID reads its digits with int(_, 16), which takes every Unicode decimal digit for its
+    ASCII value (CPython: _PyUnicode_TransformDecimalAndSpaceToASCII); the Lean model of int() is
+    ASCII only for digits, so those digits are translated here (one code point each: the length
+    test of uuid.UUID is not affected)."""
+    if not isinstance(s, str) or s.isascii():
+        return s
+    out = []
+    for ch in s:
+        d = unicodedata.decimal(ch, None) if ord(ch) > 127 else None
+        out.append(ch if d is None else str(d))
+    return "".join(out)
+
+
 # ----------------------------------------------------------------------------- generation
+_ARABIC = dict((str(i), chr(0x660 + i)) for i in range(10))
+_FULLWIDTH = dict((str(i), chr(0xFF10 + i)) for i in range(10))
+
+
+def id_forms(ident):
+    """Other spellings of an id text: accepted ones, near misses, decorated ones."""
+    bare = ident.replace("-", "")
+    old = [ident.upper(), "{" + ident + "}", "urn:uuid:" + ident, bare,
+           ident[:-1], ident + "0", "garbage", "", " " + ident[1:], "+" + ident[1:],
+           "0x" + ident[2:], ident[:9] + "_" + ident[10:], "g" + ident[1:], "-" + ident[1:],
+           ident[:8] + ident[9:] + "-", "{{" + ident + "}", "uuid:" + ident.upper(),
+           ident[:4] + "__" + ident[6:], "-" + "0" * 31, "_" + ident[1:], ident[:-1] + "_"]
+    # the canonical text with something before or after it: white space, line feeds, control
+    # characters, braces and prefixes in other orders; digits from other scripts; other groupings.
+    # (incl. the ASCII separators 0x1c-0x1f: white space for str.strip(), not for int() on an ASCII
+    # text - Py/Uuid.lean `intStrip` models exactly that)
+    new = [ident + "\n", "\n" + ident, ident + "\r\n", ident + "\n\n", ident + " ", " " + ident,
+           "\t" + ident + "\t", ident + "\r", ident + "\x0b", ident + "\x0c", ident + "\x00",
+           u"\ufeff" + ident, ident + u"\u2028", ident + u"\xa0", ident + u"\x85", ident + ".",
+           ident[:-1] + "\x1c", "\x1f" + ident[1:], ident + "\x1d", ident[:-1] + u"\x1e\xa0"[:1],
+           ident[:-1] + "\n", "\n" + ident[1:], ident[:-1] + u"\xa0", ident[:-1] + u"\u3000",
+           "".join(_ARABIC.get(c, c) for c in ident), "".join(_FULLWIDTH.get(c, c) for c in ident),
+           ident[:-1] + u"\xb2", u"\uff41" + ident[1:],
+           "{urn:uuid:" + ident + "}", "urn:uuid:{" + ident + "}", "{" + ident, ident + "}",
+           "}" + ident + "{", "urn:urn:uuid:" + ident, "URN:UUID:" + ident, "urn:uuid:" + ident.upper(),
+           "{" + ident.upper() + "}", "uuid:urn:" + ident, "urn:uuid: " + ident, ident + "urn:",
+           ident.replace("-", "--"), "-".join(bare[i:i + 2] for i in range(0, 32, 2)),
+           ident.replace("-", " "), ident.replace("-", "_"), bare[:16] + "-" + bare[16:],
+           ident + ident, ident[:18], ident + "-", "-" + ident, "--" + bare[2:], " " + bare[1:] ,
+           bare[:-1] + " ", "\n" + bare[1:-1] + "\n", "0X" + bare[2:], "0x_" + bare[3:], "+" + bare[1:],
+           bare[:-2] + "_" + bare[-1]]
+    return old, new
+
+
 def mangle_id(r, ident):
     """Mostly valid canonical ids; sometimes None, other accepted spellings, or malformed text."""
     x = r.random()
@@ -24,12 +169,16 @@ def mangle_id(r, ident):
         return ident
     if x < 0.76:
         return None
-    forms = [ident.upper(), "{" + ident + "}", "urn:uuid:" + ident, ident.replace("-", ""),
-             ident[:-1], ident + "0", "garbage", "", " " + ident[1:], "+" + ident[1:],
-             "0x" + ident[2:], ident[:9] + "_" + ident[10:], "g" + ident[1:], "-" + ident[1:],
-             ident[:8] + ident[9:] + "-", "{{" + ident + "}", "uuid:" + ident.upper(),
-             ident[:4] + "__" + ident[6:], "-" + "0" * 31, "_" + ident[1:], ident[:-1] + "_"]
-    return r.choice(forms)
+    old, new = id_forms(ident)
+    return r.choice(old) if r.random() < 0.45 else r.choice(new)
+
+
+def form_of(k, ident):
+    if k is None:
+        return ident
+    old, new = id_forms(ident)
+    forms = old + new
+    return forms[k % len(forms)]
 
 
 def P(rng, *classes):
@@ -37,15 +186,84 @@ def P(rng, *classes):
     return {"cls": list(classes), "n": rng.randrange(0, 1000)}
 
 
+def last(key):
+    return {"rel": "last", "key": key}
+
+
+def parent_of(sym):
+    return {"rel": "parent", "of": sym}
+
+
 class Gen(object):
     """Generates one history with symbolic handles (resolved against the real world state by the
     executor, so every operation addresses existing objects of a sensible kind)."""
 
-    def __init__(self, rng, max_ops=40, max_objs=12):
+    def __init__(self, rng, max_ops=40, max_objs=12, odd=False, nan=False):
         self.rng = rng
         self.max_ops = max_ops
         self.max_objs = max_objs
         self.idn = 0
+        self.odd = odd
+        self.odd_pool = [spec(*x) for x in ODD_NAMES] + ([spec("float", "nan")] * 2 if nan else [])
+
+    # -- ingredients ---------------------------------------------------------------------------
+    def child_of(self, sym):
+        return {"rel": "child", "of": sym, "n": self.rng.randrange(0, 1000)}
+
+    def sibling_of(self, sym):
+        return {"rel": "sibling", "of": sym, "n": self.rng.randrange(0, 1000)}
+
+    def anyobj(self):
+        r = self.rng
+        return P(r, "sec", "prop", "sec", "doc") if r.random() < 0.08 else P(r, "sec", "prop")
+
+    def cont(self):
+        return P(self.rng, "doc", "sec", "sec", "sec")
+
+    def child(self):
+        return P(self.rng, "sec", "prop")
+
+    def pos(self, lo, hi):
+        r = self.rng
+        if self.odd and r.random() < 0.12:
+            # positions that are not plain machine-size ints (the model's positions are integers)
+            v = r.choice(ODD_POS)
+            return dict(v) if isinstance(v, dict) else v
+        if r.random() < 0.06:
+            return r.choice(EXTREME_POS)
+        return r.randrange(lo, hi)
+
+    def name(self):
+        """Mostly the small alphabet (clashes are frequent); sometimes another text, the id text or
+        the name of a live object; in the odd stream a value that is not a text."""
+        r = self.rng
+        x = r.random()
+        if self.odd and x < 0.45:
+            return dict(r.choice(self.odd_pool))
+        if x < 0.86:
+            return r.choice(NAMES)
+        if x < 0.93:
+            return r.choice(WIDE_NAMES)
+        if x < 0.98:
+            return {"idof": P(r, "sec", "prop", "sec", "prop", "doc"),
+                    "form": None if r.random() < 0.8 else r.randrange(0, 200)}
+        return {"nameof": P(r, "sec", "prop")}
+
+    def oid(self, ident):
+        r = self.rng
+        x = r.random()
+        if x < 0.07:
+            # the id of another live object, as it is or in another spelling
+            return {"idof": P(r, "sec", "prop", "doc"), "form": None if r.random() < 0.6 else r.randrange(0, 200)}
+        if self.odd and x < 0.12:
+            return dict(r.choice([spec("int", "7"), spec("bytes", ident), spec("float", "1.5"),
+                                  spec("bool", "True"), spec("tuple", "1,2")]))
+        return mangle_id(r, ident)
+
+    def rename(self, x, new=None):
+        r = self.rng
+        return {"op": "rename", "x": x, "new": self.name() if new is None else new,
+                "empty": r.choice(["none", "str"])}
 
     def construct(self, kind=None, with_parent=None):
         r = self.rng
@@ -53,8 +271,7 @@ class Gen(object):
             kind = r.choice(["sec", "sec", "sec", "prop", "prop", "doc"])
         self.idn += 1
         ident = uid(self.idn if r.random() > 0.1 else r.randrange(1, max(2, self.idn)))
-        ident = mangle_id(r, ident)
-        op = {"op": "construct", "kind": kind, "name": r.choice(NAMES), "oid": ident, "fresh": "",
+        op = {"op": "construct", "kind": kind, "name": self.name(), "oid": self.oid(ident), "fresh": "",
               "parent": None, "args_ok": r.random() > 0.12, "via": r.choice(["ctor", "create"])}
         if with_parent is None:
             with_parent = r.random() < 0.7
@@ -73,16 +290,187 @@ class Gen(object):
             op["empty"] = r.choice(["none", "str"])
         return op
 
+    # -- blocks: a macro operation and operations aimed at what it built ------------------------
+    def mirror_block(self):
+        """A deep-equal copy (same names, types, content; other ids) of a container built elsewhere,
+        then operations that mix the children of the two: every place where the library compares
+        objects has to tell them apart."""
+        r = self.rng
+        x = P(r, "sec", "sec", "sec", "doc")
+        ops = [{"op": "mirror", "x": x,
+                "p": r.choice([None, self.cont(), self.cont(), self.cont(), parent_of(x)])}]
+        orig, copy = last("mirror_orig"), last("mirror_copy")
+        och = lambda: self.child_of(orig)
+        cch = lambda: self.child_of(copy)
+        for _ in range(r.randrange(1, 4)):
+            c = r.randrange(18)
+            if c < 3:
+                ops.append({"op": "set_parent", "x": och(), "np": copy})
+            elif c == 3:
+                ops.append({"op": "set_parent", "x": cch(), "np": orig})
+            elif c == 4:
+                ops.append({"op": "append", "p": copy, "x": och()})
+            elif c == 5:
+                ops.append({"op": "append", "p": orig, "x": cch()})
+            elif c == 6:
+                ops.append({"op": "insert", "p": r.choice([copy, orig]), "pos": self.pos(-3, 5),
+                            "x": r.choice([och, cch])()})
+            elif c == 7:
+                xs = [och()] + ([self.anyobj()] if r.random() < 0.4 else [])
+                r.shuffle(xs)
+                ops.append({"op": "extend", "p": copy, "xs": xs})
+            elif c == 8:
+                ops.append({"op": "set_item", "p": r.choice([copy, orig]), "sec_list": r.random() < 0.6,
+                            "key": r.randrange(-3, 4), "v": r.choice([och, cch])()})
+            elif c == 9:
+                ops.append({"op": "remove", "p": orig, "x": cch()})
+            elif c == 10:
+                ops.append({"op": "remove", "p": copy, "x": och()})
+            elif c == 11:
+                a, b = r.choice([(orig, copy), (copy, orig)])
+                ops.append({"op": "set_parent", "x": a, "np": parent_of(b)})
+            elif c == 12:
+                a, b = r.choice([(orig, copy), (copy, orig)])
+                ops.append(r.choice([{"op": "append", "p": parent_of(b), "x": a},
+                                     {"op": "insert", "p": parent_of(b), "pos": self.pos(-3, 5), "x": a},
+                                     {"op": "extend", "p": parent_of(b), "xs": [a]},
+                                     {"op": "set_item", "p": parent_of(b), "sec_list": True,
+                                      "key": r.randrange(-3, 4), "v": a}]))
+            elif c == 13:
+                ops.append({"op": "reorder", "x": r.choice([och, cch])(), "idx": self.pos(-4, 5)})
+            elif c == 14:
+                ops.append(self.rename(r.choice([och, cch])()))
+            elif c == 15:
+                # one level further down: a grandchild of the one into the equal child of the other
+                ops.append({"op": "set_parent", "x": self.child_of(och()), "np": cch()})
+            elif c == 16:
+                ops.append({"op": "remove", "p": parent_of(copy), "x": orig})
+            else:
+                ops.append({"op": "remove", "p": parent_of(orig), "x": copy})
+        return ops
+
+    def twin_block(self):
+        """An object with the name and the id of an existing one (what clone(keep_id=True) of a leaf
+        gives), put beside the original; then either name is cleared or changed."""
+        r = self.rng
+        x = P(r, "sec", "prop")
+        ops = [{"op": "twin", "x": x, "p": r.choice([None, None, None, parent_of(x), self.cont()])}]
+        orig, copy = last("twin_orig"), last("twin_copy")
+        steps = [self.rename(orig, r.choice(["a", "b", "c", "ab", "", self.name()])),
+                 r.choice([{"op": "append", "p": parent_of(orig), "x": copy},
+                           {"op": "set_parent", "x": copy, "np": parent_of(orig)},
+                           {"op": "insert", "p": parent_of(orig), "pos": self.pos(-3, 5), "x": copy},
+                           {"op": "extend", "p": parent_of(orig), "xs": [copy]},
+                           {"op": "set_parent", "x": orig, "np": parent_of(copy)}]),
+                 self.rename(r.choice([copy, orig]), ""),
+                 self.rename(r.choice([orig, copy]), "")]
+        steps = [s for s in steps if r.random() > 0.15]
+        if r.random() < 0.2:
+            r.shuffle(steps)
+        if r.random() < 0.3:
+            steps.insert(r.randrange(len(steps) + 1),
+                         {"op": "new_id", "x": r.choice([orig, copy]),
+                          "oid": r.choice([None, {"idof": r.choice([orig, copy]), "form": None}]), "fresh": ""})
+        return ops + steps
+
+    def idclash_block(self):
+        """The id text of one object becomes the name of a sibling (or the siblings get the same id);
+        then names are cleared: the fallback to the id has to respect the siblings."""
+        r = self.rng
+        x = P(r, "sec", "prop")
+        y = self.sibling_of(x)
+        c = r.randrange(4)
+        if c == 0:
+            ops = [{"op": "new_id", "x": y, "oid": {"idof": x, "form": r.choice([None, None, 0, 1, 2])},
+                    "fresh": ""},
+                   self.rename(x, ""), self.rename(y, "")]
+        elif c == 1:
+            ops = [self.rename(y, {"idof": x, "form": None}), self.rename(x, "")]
+        elif c == 2:
+            ops = [{"op": "twin", "x": x, "p": parent_of(x), "namesake": True}, self.rename(x, "")]
+        else:
+            ops = [self.rename(x, ""), self.rename(y, {"idof": x, "form": None}),
+                   {"op": "new_id", "x": y, "oid": {"idof": x, "form": None}, "fresh": ""},
+                   self.rename(y, "")]
+        if r.random() < 0.3:
+            ops.append(self.rename(r.choice([x, y]), ""))
+        return ops
+
+    def readd_block(self):
+        """An object is added once more to the container it already lives in."""
+        r = self.rng
+        x = self.child()
+        par = parent_of(x)
+        c = r.randrange(7)
+        if c == 0:
+            return [{"op": "append", "p": par, "x": x}]
+        if c == 1:
+            return [{"op": "insert", "p": par, "pos": self.pos(-3, 5), "x": x}]
+        if c == 2:
+            return [{"op": "extend", "p": par, "xs": [x]}]
+        if c == 3:
+            return [{"op": "extend", "p": par, "xs": [x, dict(x)]}]
+        if c == 4:
+            return [{"op": "set_parent", "x": x, "np": par}]
+        if c == 5:
+            return [{"op": "set_item", "p": par, "sec_list": r.random() < 0.5, "key": r.randrange(-3, 4), "v": x}]
+        return [{"op": "extend", "p": par, "xs": [self.anyobj(), x]}]
+
+    def load(self):
+        """A document given as YAML / JSON / XML text (oracle-only stream)."""
+        r = self.rng
+
+        def ident():
+            self.idn += 1
+            v = self.oid(uid(self.idn))
+            if isinstance(v, dict) and "idof" in v:
+                return None
+            if isinstance(v, dict) and v["py"] in ("bytes", "tuple"):
+                return spec("int", "7")          # what JSON / YAML text can carry
+            return v
+
+        def nm():
+            v = self.name()
+            if isinstance(v, dict) and ("idof" in v or "nameof" in v):
+                return r.choice(NAMES)
+            if isinstance(v, dict) and v["py"] in ("bytes", "tuple"):
+                return spec("int", "7")
+            return v
+
+        def sec(depth):
+            out = {"name": nm(), "type": r.choice(["t", "t", "u"]), "id": ident(),
+                   "properties": [{"name": nm(), "id": ident()} for _ in range(r.randrange(0, 3))],
+                   "sections": []}
+            if depth < 2:
+                out["sections"] = [sec(depth + 1) for _ in range(r.randrange(0, 3))]
+            return out
+        return {"op": "load", "fmt": r.choice(["yaml", "json", "xml"]), "id": ident(),
+                "sections": [sec(0) for _ in range(r.randrange(1, 4))]}
+
     def history(self):
         r = self.rng
-        ops = [self.construct("doc", False), self.construct("sec", True), self.construct("sec", True)]
+        if self.odd and r.random() < 0.4:
+            ops = [self.load()]
+        else:
+            ops = [self.construct("doc", False), self.construct("sec", True), self.construct("sec", True)]
         n = r.randrange(5, self.max_ops + 1)
         constructed = 3
         while len(ops) < n:
+            block = r.random()
+            if block < 0.045:
+                ops.extend(self.mirror_block())
+                continue
+            if block < 0.08:
+                ops.extend(self.twin_block())
+                continue
+            if block < 0.115:
+                ops.extend(self.idclash_block())
+                continue
+            if block < 0.16:
+                ops.extend(self.readd_block())
+                continue
             choice = r.random()
-            cont = lambda: P(r, "doc", "sec", "sec", "sec")
-            anyobj = lambda: P(r, "sec", "prop", "sec", "doc") if r.random() < 0.08 else P(r, "sec", "prop")
-            child = lambda: P(r, "sec", "prop")
+            cont, anyobj, child = self.cont, self.anyobj, self.child
             if choice < 0.20:
                 if constructed < self.max_objs:
                     ops.append(self.construct())
@@ -90,13 +478,18 @@ class Gen(object):
             elif choice < 0.32:
                 ops.append({"op": "append", "p": cont(), "x": anyobj()})
             elif choice < 0.42:
-                ops.append({"op": "insert", "p": cont(), "pos": r.randrange(-3, 5), "x": anyobj()})
+                ops.append({"op": "insert", "p": cont(), "pos": self.pos(-3, 5), "x": anyobj()})
             elif choice < 0.52:
                 k = r.randrange(0, 4)
                 xs = [anyobj() for _ in range(k)]
                 if xs and r.random() < 0.25:
                     xs.append(dict(r.choice(xs)))          # the same object twice
-                ops.append({"op": "extend", "p": cont(), "xs": xs})
+                op = {"op": "extend", "p": cont(), "xs": xs, "form": r.choice(["list", "list", "tuple", "iter"])}
+                if r.random() < 0.15:
+                    # the argument is an odML container itself: iterating it yields its children
+                    op["xs"] = []
+                    op["iter_of"] = P(r, "sec", "sec", "doc")
+                ops.append(op)
             elif choice < 0.60:
                 ops.append({"op": "remove", "p": cont(), "x": child(), "child_of_p": r.random() < 0.7})
             elif choice < 0.74:
@@ -104,16 +497,15 @@ class Gen(object):
                 ops.append({"op": "set_parent", "x": child(), "np": np_})
             elif choice < 0.84:
                 ops.append({"op": "set_item", "p": cont(), "sec_list": r.random() < 0.6,
-                            "key": r.randrange(-3, 4), "v": anyobj()})
+                            "key": self.pos(-3, 4), "v": anyobj()})
             elif choice < 0.92:
-                ops.append({"op": "reorder", "x": child(), "idx": r.randrange(-4, 5)})
+                ops.append({"op": "reorder", "x": child(), "idx": self.pos(-4, 5)})
             elif choice < 0.97:
-                ops.append({"op": "rename", "x": child(), "new": r.choice(NAMES),
-                            "empty": r.choice(["none", "str"])})
+                ops.append(self.rename(child()))
             else:
                 self.idn += 1
                 ops.append({"op": "new_id", "x": P(r, "sec", "prop", "doc"),
-                            "oid": mangle_id(r, uid(self.idn)), "fresh": ""})
+                            "oid": self.oid(uid(self.idn)), "fresh": ""})
         return ops
 
 
@@ -121,6 +513,7 @@ class Gen(object):
 class World(object):
     def __init__(self):
         self.objs = []
+        self.last = {}          # what the last macro operation built / looked at (handles)
 
     def handle_of(self, obj):
         for i, o in enumerate(self.objs):
@@ -140,18 +533,26 @@ class World(object):
 
     def snapshot(self):
         out = []
-        for o in self.objs:
+        for i, o in enumerate(self.objs):
             k = self.kind(o)
             par = o.parent
+            oid = o.id
             out.append({
                 "kind": k,
-                "name": "" if k == "doc" else o.name,
-                "id": o.id,
+                "name": "" if k == "doc" else enc_name(o.name, i),
+                "id": oid if isinstance(oid, str) or oid is None else u"\x01obj:%r" % (oid,),
                 "parent": None if par is None else self.handle_of(par),
                 "secs": [self.handle_of(s) for s in list(o.sections)] if k != "prop" else [],
                 "props": [self.handle_of(p) for p in list(o.properties)] if k == "sec" else [],
             })
         return out
+
+    @staticmethod
+    def name_arg(val, empty):
+        name = decode(val)
+        if isinstance(name, str) and name == "":
+            return None if empty == "none" else ""
+        return name
 
     def apply(self, op):
         import odml
@@ -160,72 +561,225 @@ class World(object):
         if kind == "construct":
             k = op["kind"]
             parent = None if op["parent"] is None else O[op["parent"]]
-            name = op["name"] or (None if op.get("empty", "none") == "none" else "")
+            name = self.name_arg(op["name"], op.get("empty", "none"))
+            oid = decode(op["oid"])
             if k == "doc":
-                obj = odml.Document(oid=op["oid"])
+                obj = odml.Document(oid=oid)
             elif k == "sec":
                 bad = (3, 1) if not op["args_ok"] else None
                 if op.get("via") == "create" and parent is not None and op["args_ok"] \
                         and hasattr(parent, "create_section"):
-                    obj = parent.create_section(name=name, type=op.get("stype", "t"), oid=op["oid"])
+                    obj = parent.create_section(name=name, type=op.get("stype", "t"), oid=oid)
                 else:
-                    obj = odml.Section(name=name, type=op.get("stype", "t"), oid=op["oid"], parent=parent,
+                    obj = odml.Section(name=name, type=op.get("stype", "t"), oid=oid, parent=parent,
                                        sec_cardinality=bad)
             else:
                 bad = (3, 1) if not op["args_ok"] else None
                 if op.get("via") == "create" and parent is not None and op["args_ok"] \
                         and hasattr(parent, "create_property"):
-                    obj = parent.create_property(name=name, values=[1], oid=op["oid"])
+                    obj = parent.create_property(name=name, values=[1], oid=oid)
                 else:
-                    obj = odml.Property(name=name, values=[1], oid=op["oid"], parent=parent,
+                    obj = odml.Property(name=name, values=[1], oid=oid, parent=parent,
                                         val_cardinality=bad)
             O.append(obj)
             op["fresh"] = obj.id
         elif kind == "new_id":
             try:
-                O[op["x"]].new_id(op["oid"])
+                O[op["x"]].new_id(decode(op["oid"]))
             finally:
                 op["fresh"] = O[op["x"]].id
         elif kind == "append":
             O[op["p"]].append(O[op["x"]])
         elif kind == "insert":
-            O[op["p"]].insert(op["pos"], O[op["x"]])
+            O[op["p"]].insert(decode(op["pos"]), O[op["x"]])
         elif kind == "extend":
-            O[op["p"]].extend([O[x] for x in op["xs"]])
+            arg = [O[x] for x in op["xs"]]
+            if op.get("iter_of") is not None:
+                arg = O[op["iter_of"]]
+            elif op.get("form") == "tuple":
+                arg = tuple(arg)
+            elif op.get("form") == "iter":
+                arg = iter(arg)
+            O[op["p"]].extend(arg)
         elif kind == "remove":
             O[op["p"]].remove(O[op["x"]])
         elif kind == "set_parent":
             O[op["x"]].parent = None if op["np"] is None else O[op["np"]]
         elif kind == "set_item":
             lst = O[op["p"]].sections if op["sec_list"] else O[op["p"]].properties
-            lst[op["key"]] = O[op["v"]]
+            lst[decode(op["key"])] = O[op["v"]]
         elif kind == "reorder":
-            O[op["x"]].reorder(op["idx"])
+            O[op["x"]].reorder(decode(op["idx"]))
         elif kind == "rename":
-            O[op["x"]].name = op["new"] or (None if op.get("empty", "none") == "none" else "")
+            O[op["x"]].name = self.name_arg(op["new"], op.get("empty", "none"))
+        elif kind == "load":
+            self.load(op)
         else:
             raise ValueError(kind)
 
+    # -- a document from text (oracle-only stream) ------------------------------------------------
+    def load(self, op):
+        from odml.tools.odmlparser import ODMLReader
+        fmt = op["fmt"]
+        if fmt == "xml":
+            text = render_xml(op)
+        else:
+            def prop(p):
+                out = {"name": decode(p["name"]), "value": [1], "type": "int"}
+                if p["id"] is not None:
+                    out["id"] = decode(p["id"])
+                return out
 
-def resolve(w, op):
-    """Symbolic handles -> concrete handles against the current world; None = not applicable."""
-    def pick(sym):
-        if sym is None or isinstance(sym, int):
-            return sym
+            def sec(s):
+                out = {"name": decode(s["name"]), "type": s["type"],
+                       "properties": [prop(p) for p in s["properties"]],
+                       "sections": [sec(c) for c in s["sections"]]}
+                if s["id"] is not None:
+                    out["id"] = decode(s["id"])
+                return out
+            tree = {"odml-version": "1.1", "Document": {"sections": [sec(s) for s in op["sections"]]}}
+            if op["id"] is not None:
+                tree["Document"]["id"] = decode(op["id"])
+            if fmt == "yaml":
+                import yaml
+                text = yaml.safe_dump(tree, allow_unicode=True)
+            else:
+                text = json.dumps(tree)
+        doc = ODMLReader(parser=fmt.upper(), show_warnings=False).from_string(text)
+        if doc is None:
+            raise ValueError("nothing loaded")
+        found = [doc]
+        todo = [doc]
+        while todo and len(found) < 200:
+            cur = todo.pop(0)
+            for s in list(cur.sections):
+                if not any(s is o for o in found):
+                    found.append(s)
+                    todo.append(s)
+            if self.kind(cur) == "sec":
+                for p in list(cur.properties):
+                    if not any(p is o for o in found):
+                        found.append(p)
+        self.objs.extend(found)
+
+
+def render_xml(op):
+    from xml.sax.saxutils import escape
+
+    def text(v):
+        v = decode(v)
+        return escape(v if isinstance(v, str) else repr(v))
+
+    def ident(v):
+        return "" if v is None else "<id>%s</id>" % text(v)
+
+    def prop(p):
+        return "<property><name>%s</name><value>[1]</value><type>int</type>%s</property>" \
+            % (text(p["name"]), ident(p["id"]))
+
+    def sec(s):
+        return "<section><name>%s</name><type>%s</type>%s%s%s</section>" \
+            % (text(s["name"]), s["type"], ident(s["id"]),
+               "".join(prop(p) for p in s["properties"]), "".join(sec(c) for c in s["sections"]))
+    return '<?xml version="1.0" encoding="UTF-8"?>\n<odML version="1.1">%s%s</odML>' \
+        % (ident(op["id"]), "".join(sec(s) for s in op["sections"]))
+
+
+def pick(w, sym):
+    """Symbolic handle -> concrete handle; -1 = there is no such object now."""
+    if sym is None or isinstance(sym, int):
+        return sym
+    rel = sym.get("rel")
+    if rel is None:
         cand = [i for i, o in enumerate(w.objs) if w.kind(o) in sym["cls"]]
         if not cand:
             return -1
         return cand[sym["n"] % len(cand)]
+    if rel == "last":
+        h = w.last.get(sym["key"])
+        if h is None or h >= len(w.objs) or w.objs[h] is None:
+            return -1
+        return h
+    base = pick(w, sym["of"])
+    if base is None or base == -1:
+        return -1
+    o = w.objs[base]
+    if o is None:
+        return -1
+    k = w.kind(o)
+
+    def kids(c):
+        kc = w.kind(c)
+        if kc == "prop":
+            return []
+        return list(c.sections) + (list(c.properties) if kc == "sec" else [])
+    if rel == "child":
+        cand = kids(o)
+    elif rel == "parent":
+        cand = [] if k == "doc" or o.parent is None else [o.parent]
+    elif rel == "sibling":
+        par = None if k == "doc" else o.parent
+        cand = [] if par is None else [c for c in kids(par) if c is not o and w.kind(c) == k]
+    else:
+        raise ValueError(rel)
+    if not cand:
+        return -1
+    h = w.handle_of(cand[sym.get("n", 0) % len(cand)])
+    return h if isinstance(h, int) else -1
+
+
+def resolve_text(w, val):
+    """A name / id argument: texts and odd values as they are; {"idof": X} = the id text of a live
+    object (optionally in another spelling), {"nameof": X} = its name. None = not applicable."""
+    if isinstance(val, dict) and "idof" in val:
+        h = pick(w, val["idof"])
+        if h is None or h == -1:
+            return False, None
+        ident = w.objs[h].id
+        if not isinstance(ident, str):
+            return False, None
+        return True, form_of(val.get("form"), ident)
+    if isinstance(val, dict) and "nameof" in val:
+        h = pick(w, val["nameof"])
+        if h is None or h == -1 or w.kind(w.objs[h]) == "doc":
+            return False, None
+        return True, spec_of(w.objs[h].name)
+    return True, val
+
+
+def resolve(w, op):
+    """Symbolic handles -> concrete handles against the current world; None = not applicable."""
     out = dict(op)
     for key in ("p", "x", "v", "np", "parent"):
         if key in out:
-            out[key] = pick(out[key])
+            out[key] = pick(w, out[key])
             if out[key] == -1:
                 return None
     if "xs" in out:
-        out["xs"] = [pick(x) for x in out["xs"]]
-        if -1 in out["xs"]:
+        out["xs"] = [pick(w, x) for x in out["xs"]]
+        if -1 in out["xs"] or None in out["xs"]:
             return None
+    if out.get("iter_of") is not None:
+        h = pick(w, out["iter_of"])
+        if h is None or h == -1 or w.objs[h] is None or w.kind(w.objs[h]) == "prop":
+            return None
+        out["iter_of"] = h
+        out["xs"] = [w.handle_of(c) for c in list(w.objs[h])]      # what iterating the container yields
+        if "?" in out["xs"]:
+            return None
+    for key in ("name", "new", "oid"):
+        if key in out:
+            ok, out[key] = resolve_text(w, out[key])
+            if not ok:
+                return None
+    if out["op"] == "rename" and (out["x"] is None or w.kind(w.objs[out["x"]]) == "doc"):
+        return None      # a Document has no name setter (plain attribute; not an editing operation)
+    if out["op"] in ("append", "insert", "extend", "remove", "set_item") and out.get("p") is None:
+        return None
+    if out["op"] in ("append", "insert", "remove", "reorder", "set_parent", "new_id") and out.get("x") is None:
+        return None
+    if out["op"] == "set_item" and out.get("v") is None:
+        return None
     if out["op"] == "remove" and out.pop("child_of_p", False):
         # mostly remove a real child of p
         p = w.objs[out["p"]]
@@ -238,30 +792,129 @@ def resolve(w, op):
     return out
 
 
+MAX_OBJS_MACRO = 36
+
+
+def expand(w, op):
+    """One generated operation -> the concrete operations it stands for, one at a time (the world
+    is looked at again after each of them has been executed)."""
+    kind = op["op"]
+    if kind == "mirror":
+        for cop in _mirror(w, op):
+            yield cop
+    elif kind == "twin":
+        x = pick(w, op["x"])
+        p = pick(w, op["p"])
+        w.last["twin_orig"] = None
+        w.last["twin_copy"] = None
+        if x is None or x == -1 or p == -1 or len(w.objs) > MAX_OBJS_MACRO:
+            return
+        o = w.objs[x]
+        k = w.kind(o)
+        if k == "doc" or not isinstance(o.id, str):
+            return
+        w.last["twin_orig"] = x
+        n = len(w.objs)
+        cop = {"op": "construct", "kind": k,
+               "name": o.id if op.get("namesake") else spec_of(o.name),
+               "oid": None if op.get("namesake") else o.id, "fresh": "", "parent": p, "args_ok": True,
+               "via": "ctor", "macro": "twin"}
+        if k == "sec":
+            cop["stype"] = o.type
+        cop.update(_attrs(o, k))
+        yield cop
+        if len(w.objs) == n + 1:
+            w.last["twin_copy"] = n
+    else:
+        cop = resolve(w, op)
+        if cop is not None:
+            yield cop
+
+
+def _attrs(o, k):
+    """Attributes that make == answer (they play no role for the tree structure and are not in the
+    model; only the extended executor of c03.py sets them)."""
+    try:
+        if k == "sec":
+            return {"defn": o.definition}
+        if k == "prop":
+            vals = o.values
+            json.dumps(vals)
+            return {"unit": o.unit, "vals": vals}
+    except Exception:
+        pass
+    return {}
+
+
+def _mirror(w, op):
+    x = pick(w, op["x"])
+    p = pick(w, op["p"])
+    w.last["mirror_orig"] = None
+    w.last["mirror_copy"] = None
+    if x is None or x == -1 or p == -1 or len(w.objs) > MAX_OBJS_MACRO:
+        return
+    root = w.objs[x]
+    if w.kind(root) == "prop":
+        return
+    w.last["mirror_orig"] = x
+    nodes = [(root, None)]         # (original, index of its parent's entry)
+    i = 0
+    while i < len(nodes) and len(nodes) < 7:
+        cur = nodes[i][0]
+        if w.kind(cur) != "prop":
+            kids = list(cur.sections) + (list(cur.properties) if w.kind(cur) == "sec" else [])
+            for c in kids:
+                if len(nodes) < 7 and not any(c is n[0] for n in nodes):
+                    nodes.append((c, i))
+        i += 1
+    made = {}
+    for i, (o, pi) in enumerate(nodes):
+        if i > 0 and pi not in made:
+            continue               # the copy of its parent was refused
+        k = w.kind(o)
+        n = len(w.objs)
+        cop = {"op": "construct", "kind": k, "name": "" if k == "doc" else spec_of(o.name), "oid": None,
+               "fresh": "", "parent": (None if k == "doc" else p) if i == 0 else made[pi],
+               "args_ok": True, "via": "ctor", "macro": "mirror"}
+        if k == "sec":
+            cop["stype"] = o.type
+        cop.update(_attrs(o, k))
+        yield cop
+        if len(w.objs) == n + 1:
+            made[i] = n
+            if i == 0:
+                w.last["mirror_copy"] = n
+
+
 def run_history(ops):
     """-> (trace, resolved ops): per executed op {"out", "snap"}; ops that cannot be resolved are dropped."""
     w = World()
     trace = []
     done = []
     for op in ops:
-        cop = resolve(w, op)
-        if cop is None:
-            continue
-        try:
-            w.apply(cop)
-            out = "ok"
-        except RecursionError:
-            out = "RecursionError"
-        except Exception as exc:
-            out = fw.exc_name(exc)
-        trace.append({"out": out, "snap": w.snapshot()})
-        done.append(cop)
+        for cop in expand(w, op):
+            try:
+                w.apply(cop)
+                out = "ok"
+            except RecursionError:
+                out = "RecursionError"
+            except Exception as exc:
+                out = fw.exc_name(exc)
+            trace.append({"out": out, "snap": w.snapshot()})
+            done.append(cop)
     return trace, done
 
 
 def model_ops(done):
-    """Concrete ops for the model (API-variant keys removed)."""
-    return [dict((k, v) for k, v in op.items() if k != "via") for op in done]
+    """Concrete ops for the model (API-variant keys removed; digits of other scripts in id texts
+    translated, see model_text)."""
+    out = []
+    for op in done:
+        m = dict((k, v) for k, v in op.items() if k not in ("via", "macro", "form", "iter_of"))
+        if isinstance(m.get("oid"), str):
+            m["oid"] = model_text(m["oid"])
+        out.append(m)
+    return out
 
 
 # ----------------------------------------------------------------------------- oracles
